@@ -179,7 +179,7 @@ def inter_cases():
             (fr(-33.94, 151.17, 1, True, 0x7C1234), -33.9, 151.2), (fr(40.64, -73.78, 0, True, 0xA00001), 40.6, -73.8)]
 
 
-def w_inter(_):
+def w_inter(bound):
     """re-entrancy (preemption bound 1, engine.interleave): a decode with reference suspended before each of its source
     lines while the decode of another aircraft's frame (airborne or surface, either parity) runs to completion."""
     from engine.util import interleaved_ok
@@ -188,18 +188,18 @@ def w_inter(_):
     for fn in ("position_with_ref", "airborne_position_with_ref", "surface_position_with_ref"):
         f = getattr(pms.adsb, fn)
         own = cases[:3] if fn.startswith("air") else cases[3:] if fn.startswith("surf") else cases
-        bad_, n = interleaved_ok(f, own)
+        bad_, n = interleaved_ok(f, own, bound=bound or 1)
         acc.n += n
         acc.c["interleaved_schedules"] += n
         for a_, nm, k_ in bad_:
-            acc.bad("withref:answer_changes_when_another_call_runs_in_between", {"inter": fn, "a": list(a_), "preempt_before_line_event": k_})
+            acc.bad("withref:answer_changes_when_another_call_runs_in_between", {"inter": fn, "a": list(a_), "preempt_before_line_event": k_, "bound": bound or 1})
         acc.out.add(("inter", fn))
     return acc.res()
 
 
 def w_any(t):
     if t[0] == "i":
-        return w_inter(None)
+        return w_inter(t[1])
     if t[0] == "c":
         return w_corner(t[1])
     return w_guard(None) if t[0] == "g" else w_lats(t[1])
@@ -207,7 +207,7 @@ def w_any(t):
 
 def run(ctx):
     offs = OFF13 if ctx.thorough else OFF7
-    tasks = [("g", None), ("c", False), ("c", True), ("i", None)]
+    tasks = [("g", None), ("c", False), ("c", True), ("i", None)] + ([("i", 2)] if ctx.thorough else [])
     for surface in (False, True):
         lats = S.lat_alphabet(surface, ctx.thorough)
         if not ctx.thorough:
@@ -219,7 +219,7 @@ def run(ctx):
 
 def replay(case):
     if "inter" in case:
-        return [(s_, c_) for s_, c_ in w_inter(None)["viols"] if c_["inter"] == case["inter"]][:1]
+        return [(s_, c_) for s_, c_ in w_inter(case.get("bound"))["viols"] if c_["inter"] == case["inter"]][:1]
     if "totality" in case:
         m_, la, lo = case["totality"]
         r_ = call(pms.adsb.position_with_ref, m_, la, lo)
